@@ -310,7 +310,9 @@ class PositiveScalarEncoding(ScalarEncodingBase):
         )
 
     def get(self, param_internal):
-        return anp.log1p(anp.exp(param_internal)) + self.lower
+        # softrelu(x) = log(1 + exp(x)), written so that exp does not overflow
+        # for large x (values up to ``constr_upper`` have to be representable)
+        return anp.logaddexp(0.0, param_internal) + self.lower
 
     def decode(self, val, name):
         assert val > self.lower, "{} = {} must be > self.lower = {}".format(
